@@ -6,6 +6,7 @@ import (
 	"fmt"
 	"os"
 	"sort"
+	"strings"
 	"time"
 
 	"verifharness/evidence"
@@ -22,19 +23,24 @@ type run struct {
 func plan(tier string, seed uint64) []run {
 	sync := "new,comment,title,idmutate,push,pull,reopen"
 	local := "new,comment,title,status,label,editcomment,twoedits,commentlast,remove,resolveall,reopen"
+	// the identity-history kinds (idstage, idcommit, idmutateother) are driven by the C09 and C02 checks
+	// through this world; the full alphabet here is everything else
+	full := "new,comment,title,status,label,editcomment,twoedits,commentlast,setmeta,idmutate,idsetmeta,push,pull,remove,resolveall,reopen,stage"
 	if tier != "thorough" {
 		return []run{
 			{"two users, synchronisation alphabet", Params{Seed: seed, Kinds: sync}, 4, 10 * time.Minute},
 			{"one user, every edit kind, eviction, removal, reopen (B idle)", Params{Seed: seed, Kinds: local, Users: "A"}, 4, 10 * time.Minute},
-			{"two users, full alphabet", Params{Seed: seed}, 3, 10 * time.Minute},
+			{"two users, full alphabet", Params{Seed: seed, Kinds: full}, 3, 10 * time.Minute},
 			{"an operation pending on a loaded bug across pulls (A stage/comment/pull, B comment/push)", Params{Seed: seed, Kinds: "stage,comment,pull", KindsB: "comment,push"}, 5, 3 * time.Minute},
+			{"one user, several labels per bug, labels shared between two bugs (add/remove over {alpha,beta,gamma})", Params{Seed: seed, Kinds: strings.Join(LabelKinds, ","), Users: "A"}, 5, 5 * time.Minute},
 		}
 	}
 	return []run{
 		{"two users, synchronisation alphabet", Params{Seed: seed, Kinds: sync}, 5, 20 * time.Minute},
 		{"one user, every edit kind, eviction, removal, reopen (B idle)", Params{Seed: seed, Kinds: local, Users: "A"}, 5, 25 * time.Minute},
-		{"two users, full alphabet", Params{Seed: seed}, 4, 25 * time.Minute},
+		{"two users, full alphabet", Params{Seed: seed, Kinds: full}, 4, 25 * time.Minute},
 		{"an operation pending on a loaded bug across pulls (A stage/comment/pull, B comment/push)", Params{Seed: seed, Kinds: "stage,comment,pull", KindsB: "comment,push"}, 7, 10 * time.Minute},
+		{"one user, several labels per bug, labels shared between two bugs (add/remove over {alpha,beta,gamma})", Params{Seed: seed, Kinds: strings.Join(LabelKinds, ","), Users: "A"}, 6, 10 * time.Minute},
 	}
 }
 
